@@ -23,5 +23,6 @@ Reasons(e) ==
   \o (IF \E c \in 1..Len(e.conns) : e.conns[c].fault.kind \notin {"none", "tlsstall"} /\ ~e.conns[c].closed THEN <<"faulty-not-closed">> ELSE <<>>)
   \o (IF \E c \in 1..Len(e.conns) : e.conns[c].fault.kind # "none" /\ e.conns[c].answered # Upto(e.conns[c].fault.pos - 1) THEN <<"before-fault-not-served">> ELSE <<>>)
   \o (IF \E c \in 1..Len(e.conns) : ~e.conns[c].intact THEN <<"answer-carries-another-connections-data">> ELSE <<>>)
-  \o (IF e.reports < CountBad(e.conns) THEN <<"undecodable-not-reported">> ELSE <<>>)
+  \* (when nobody reads the reports, one sits in the slot and the others were dropped by design)
+  \o (IF e.reports < (IF e.note = "undrained" THEN 1 ELSE CountBad(e.conns)) THEN <<"undecodable-not-reported">> ELSE <<>>)
 =============================================================================
